@@ -4,6 +4,7 @@ package c12
 
 import (
 	"fmt"
+	"os"
 	"sort"
 	"strings"
 	"time"
@@ -93,11 +94,11 @@ func (w *world) reset() {
 	w.s.VerifSetLinkAddrCacheTiming(ageMs*time.Millisecond, timeoutMs*time.Millisecond, attempts)
 	lid, l := netsim.NewLink(1500, tcpip.LinkAddress(ourMac), stack.CapabilityResolutionRequired)
 	w.l = l
-	w.s.CreateNIC(1, lid)
+	netsim.CreateNIC(w.s, 1, lid, l)
 	w.s.AddAddress(1, header.IPv4ProtocolNumber, tcpip.Address(our4))
 	w.s.AddAddress(1, header.IPv4ProtocolNumber, tcpip.Address(our4b))
 	w.s.AddAddress(1, arp.ProtocolNumber, arp.ProtocolAddress)
-	w.s.SetRouteTable([]tcpip.Route{{Destination: "\x00\x00\x00\x00", Mask: "\x00\x00\x00\x00", NIC: 1}})
+	netsim.SetRoutes(w.s, []tcpip.Route{{Destination: "\x00\x00\x00\x00", Mask: "\x00\x00\x00\x00", NIC: 1}})
 	w.start = time.Now()
 	w.deadlines = nil
 	w.ep = nil
@@ -179,6 +180,7 @@ func (w *world) udpWrite(addr []byte) {
 			panic(err)
 		}
 		ep.Bind(tcpip.FullAddress{Addr: tcpip.Address(our4), Port: 7000}, nil)
+		netsim.NotePort(w.s, 7000)
 		w.ep = ep
 	}
 	_, _, err := w.ep.Write(tcpip.SlicePayload([]byte("hello")), tcpip.WriteOptions{To: &tcpip.FullAddress{Addr: tcpip.Address(addr), Port: 9}})
@@ -259,6 +261,9 @@ func Gen(r *hx.Run) {
 		w.sleepMs(attempts*timeoutMs + 60)
 	}
 	nh := r.Pick(12, 120)
+	if v := os.Getenv("C12_NH"); v != "" {
+		fmt.Sscan(v, &nh)
+	}
 	for h := 0; h < nh; h++ {
 		w.reset()
 		n := 4 + r.R.Intn(14)
